@@ -417,7 +417,7 @@ def _chunk(arg: tuple) -> list:
     out = []
     from checks import store_replay
     for dk, d in enumerate(docs):
-        store_replay.set_load_factor([1000, 2, 3, 4][dk % 4])      # models straddle block boundaries
+        store_replay.set_load_factor(store_replay.rot(dk))      # models straddle block boundaries
         for fl in flavors:
             text = doclib.render(d, fl)
             for default in (True, False):
